@@ -167,10 +167,10 @@ fn rg_fallback(budget: u8, foreign_kinds: bool) {
     let stored = any_obj();
     let storage: AtomicPtr<Obj> = AtomicPtr::new(model::addr(stored) as *mut Obj);
     let helper = list_h::node_get();
-    // any generation except the one before the wrap (that path additionally runs Node::get; it is
-    // covered sequentially by l1_fallback / c13_wrap_load_arc)
-    let g = helping_h::any_generation();
-    nd::assume(g.wrapping_add(4) != 0);
+    // A fixed generation: the value only flows through equality tests on the control word, and a
+    // symbolic one makes CBMC encode the wrap-around branch (Node::get, list walk) at every call.
+    // All generation values incl. the wrap are covered sequentially by l1_fallback / c13_wrap_load_arc.
+    let g: usize = 8;
     LocalNode::with(|l| {
         let node = list_h::local_node(l).unwrap();
         havoc_occupancy(l);
@@ -301,8 +301,7 @@ fn rg_load<C: Config + Default>() {
     let stored = any_obj();
     let storage: AtomicPtr<Obj> = AtomicPtr::new(model::addr(stored) as *mut Obj);
     let helper = list_h::node_get();
-    let g = helping_h::any_generation();
-    nd::assume(g.wrapping_add(4) != 0);
+    let g: usize = 8;
     let node = LocalNode::with(|l| {
         havoc_occupancy(l);
         list_h::set_generation(l, g);
